@@ -160,7 +160,7 @@ func runC06(w *World, c *Check) {
 		{"crypto/rfc3961.DES3DecryptMessage", `crypto/etype\.EType\.VerifyIntegrity\(e, key, ciphertext, .*, usage\)`, `crypto/etype\.EType\.DecryptData\(.*\)`},
 		{"crypto/rfc3962.DecryptMessage", `crypto/etype\.EType\.VerifyIntegrity\(e, key, ciphertext, .*, usage\)`, `crypto/etype\.EType\.DecryptData\(.*\)`},
 		{"crypto/rfc8009.DecryptMessage", `crypto/etype\.EType\.VerifyIntegrity\(e, key, ciphertext, .*, usage\)`, `crypto/etype\.EType\.DecryptData\(.*\)`},
-		{"crypto/rfc4757.DecryptMessage", `crypto/rfc4757\.VerifyIntegrity\(crypto/rfc4757\.deriveKeys\(key, .*, usage, export\)#1, .*, data, e\)`, `crypto/rfc4757\.DecryptData\(.*\)`},
+		{"crypto/rfc4757.DecryptMessage", `crypto/rfc4757\.VerifyIntegrity\(crypto/rfc4757\.HMAC\(key, crypto/rfc4757\.UsageToMSMsgType\(usage\)\), .*, data, e\)`, `crypto/rfc4757\.DecryptData\(.*\)`},
 	} {
 		fa, _ := checkGuards(w, c, "C06.verify-first", d.fk, BoolErrSuccess(-1, 1), []GuardSpec{
 			{Name: "integrity-verified", Desc: "integrity verification failing ⇒ error, no plaintext", Main: []GuardPat{TruePass(d.verify)}},
